@@ -4,24 +4,49 @@
 From Coq Require Import List NArith Bool Arith Lia.
 From Coq.Strings Require Import Byte.
 Import ListNotations.
-From OV Require Import Base.Bytes Base.Cases Base.Utf8 Gen.EdiConsts Model.Edi Proofs.Edi.
+From OV Require Import Base.Bytes Base.Cases Base.Utf8 Gen.EdiConsts Model.Edi Proofs.Edi Proofs.EdiUnits.
 
 (* ---- side conditions ---------------------------------------------------------------------------- *)
 (* "pairwise non-overlapping": the delimiters in use and the release character are non-empty
-   (specials drops the absent ones), their first bytes are ASCII and pairwise distinct, and none
-   of those first bytes occurs at a later position of any of them. *)
+   (specials drops the absent ones), each starts with a rune that utf8.DecodeRune decodes and
+   that is not U+FFFD (in particular: every valid UTF-8 string not starting with U+FFFD), their
+   first bytes are pairwise distinct, and none of those first bytes occurs at a later position of
+   any of them. *)
 Definition tail_clean (hs : list byte) (x : bytes) : Prop :=
   forall b, In b (tl x) -> is_head hs b = false.
+
+Definition first_rune_ok (x : bytes) : Prop := fst (decode_rune x) <> RuneError.
 
 Definition ends_with_cr (x : bytes) : Prop := exists u, x = u ++ [CR].
 
 Definition cfg_ok (c : cfg) : Prop :=
   c_seg c <> [] /\ c_elem c <> [] /\
   NoDup (heads (specials c)) /\
-  Forall ascii_byte (heads (specials c)) /\
+  Forall first_rune_ok (specials c) /\
   Forall (tail_clean (heads (specials c))) (specials c) /\
   (* with LF as segment delimiter a CR in front of it is dropped: the release character cannot end with CR *)
   (c_seg c = [LF] -> ~ ends_with_cr (optb (c_rel c))).
+
+(* the configuration class of the first version of these proofs: first bytes ASCII *)
+Definition cfg_ok_ascii (c : cfg) : Prop :=
+  c_seg c <> [] /\ c_elem c <> [] /\
+  NoDup (heads (specials c)) /\
+  Forall ascii_byte (heads (specials c)) /\
+  Forall (tail_clean (heads (specials c))) (specials c) /\
+  (c_seg c = [LF] -> ~ ends_with_cr (optb (c_rel c))).
+
+Lemma cfg_ok_ascii_ok c : cfg_ok_ascii c -> cfg_ok c.
+Proof.
+  intros (H1 & H2 & H3 & H4 & H5 & H6). repeat split; try assumption.
+  apply Forall_forall. intros x Hx. unfold first_rune_ok.
+  destruct x as [|b t].
+  - exfalso. unfold specials, delims in Hx. rewrite in_app_iff, !filter_In in Hx.
+    destruct Hx as [[_ Hx]|[_ Hx]]; discriminate.
+  - rewrite Forall_forall in H4. assert (ascii_byte b) as Hb.
+    { apply H4. unfold heads. apply in_flat_map. exists (b :: t). split; [exact Hx|left; reflexivity]. }
+    rewrite (decode_rune_ascii b t Hb). cbn [fst]. unfold ascii_byte, RuneError in *.
+    intro Hr. rewrite Hr in Hb. revert Hb. apply N.nlt_ge. discriminate.
+Qed.
 
 Section RT.
 Variable c : cfg.
@@ -312,91 +337,215 @@ Qed.
 End Level.
 
 (* ---- the escaped form of a data value is sealed against every delimiter ---------------------------- *)
-Lemma E_cons b d : E (b :: d) = (if is_head H b then esc ++ [b] else [b]) ++ E d.
+Let EU := enc_units H esc.
+
+Lemma E_units d : E d = EU (explode d).
 Proof. reflexivity. Qed.
 
-Lemma E_nil_inv d : E d = [] -> d = [].
-Proof.
-  destruct d as [|b d]; [reflexivity|]. rewrite E_cons. destruct (is_head H b).
-  - rewrite <- app_assoc. intro Hn. apply app_eq_nil in Hn as [_ Hn]. discriminate.
-  - discriminate.
-Qed.
+Lemma EU_cons u us : EU (u :: us) = (if escapable H u then esc else []) ++ u ++ EU us.
+Proof. unfold EU, enc_units. cbn [flat_map]. rewrite <- app_assoc. reflexivity. Qed.
+
+Lemma EU_app us1 us2 : EU (us1 ++ us2) = EU us1 ++ EU us2.
+Proof. unfold EU, enc_units. apply flat_map_app. Qed.
 
 Lemma not_head b : ~ In b H -> is_head H b = false.
 Proof. intro Hn. destruct (is_head H b) eqn:Eh; [apply is_head_In in Eh; contradiction|reflexivity]. Qed.
 
-(* unescaped bytes in front of the escaped form are data bytes *)
-Lemma plain_prefix : esc <> [] -> forall xt, (forall b, In b xt -> ~ In b H) ->
-  forall d v, E d = xt ++ v -> exists d2, d = xt ++ d2 /\ v = E d2.
+Lemma in_heads_inv b : In b H -> exists xt, In (b :: xt) SP.
 Proof.
-  intros He. destruct (head_in esc (esc_sp He)) as (e0 & er & Ee & He0).
-  induction xt as [|x1 xt IH]; intros Hxt d v Heq.
-  - exists d. auto.
-  - destruct d as [|b d]; [discriminate|]. rewrite E_cons in Heq.
-    destruct (is_head H b) eqn:Eb.
-    + exfalso. rewrite Ee in Heq. simpl in Heq. inversion Heq; subst.
-      apply (Hxt x1); [left; reflexivity|exact He0].
-    + simpl in Heq. inversion Heq; subst.
-      destruct (IH (fun b' Hb' => Hxt b' (or_intror Hb')) d v) as (d2 & -> & ->); [assumption|].
-      exists d2. auto.
+  unfold H, heads. intro Hin. apply in_flat_map in Hin as (x & Hx & Hb).
+  destruct x as [|x0 xt]; [destruct Hb|]. destruct Hb as [->|[]]. exists xt. exact Hx.
 Qed.
 
-(* every occurrence of a delimiter or of the release character in the escaped form of d is either
-   an occurrence in d with a release character put before it, or an inserted release character *)
-Lemma occ_in_E : esc <> [] -> forall d u x v, In x SP -> E d = u ++ x ++ v ->
-  (exists d1 d2, d = d1 ++ x ++ d2 /\ u = E d1 ++ esc /\ v = E d2) \/
-  (x = esc /\ exists d1 b d2, d = d1 ++ b :: d2 /\ In b H /\ u = E d1 /\ v = b :: E d2).
+Lemma sp_first_rune x : In x SP -> first_rune_ok x.
+Proof. destruct Hcfg as (_ & _ & _ & Hf & _). rewrite Forall_forall in Hf. apply Hf. Qed.
+
+Lemma head_not_cont b : In b H -> ~ is_cont b.
+Proof.
+  intro Hin. destruct (in_heads_inv b Hin) as (xt & Hx).
+  apply (decode_ok_not_cont b xt). apply (sp_first_rune _ Hx).
+Qed.
+
+Lemma escapable_true u : escapable H u = true ->
+  exists b ut, u = b :: ut /\ In b H /\ fst (decode_rune u) <> RuneError.
+Proof.
+  unfold escapable. destruct u as [|b ut]; [discriminate|]. intro He. apply andb_prop in He as [H1 H2].
+  exists b, ut. split; [reflexivity|]. split; [apply is_head_In; exact H2|].
+  intro Hr. rewrite Hr in H1. discriminate.
+Qed.
+
+(* the first byte of the encoded form is never a continuation byte unless it is a data byte *)
+Lemma cont_prefix : forall cs, (forall x, In x cs -> is_cont x) -> forall r v, units_ok r ->
+  EU r = cs ++ v -> exists v', concat r = cs ++ v'.
+Proof.
+  induction cs as [|c0 cs IH]; intros Hcs r v Hok Heq; [exists (concat r); reflexivity|].
+  destruct r as [|w r]; [discriminate|]. rewrite EU_cons in Heq.
+  assert (Hc0 : is_cont c0) by (apply Hcs; left; reflexivity).
+  destruct Hok as (Hne & Hsz & Hr). destruct w as [|w0 wt]; [congruence|].
+  destruct (escapable H (w0 :: wt)) eqn:Ew.
+  - exfalso. destruct (escapable_true _ Ew) as (b & ut & Eb & Hb & Hd). inversion Eb; subst b ut.
+    destruct esc as [|e0 er] eqn:Ee.
+    + cbn [app] in Heq. inversion Heq; subst. apply (head_not_cont c0 Hb Hc0).
+    + cbn [app] in Heq. inversion Heq; subst.
+      assert (esc <> []) as He by (rewrite Ee; discriminate).
+      destruct (head_in esc (esc_sp He)) as (x0 & xt & Ex & Hx0). rewrite Ee in Ex. inversion Ex; subst.
+      apply (head_not_cont x0 Hx0 Hc0).
+  - cbn [app] in Heq. injection Heq as Hw0 Hrest. subst w0.
+    assert (wt = []) as -> by (apply (unit_cont_single (c0 :: wt) r c0 wt); [repeat split; assumption|reflexivity|exact Hc0]).
+    cbn [app] in Hrest. destruct (IH (fun x Hx => Hcs x (or_intror Hx)) r v Hr Hrest) as (v' & Hv').
+    exists v'. cbn [concat app]. rewrite Hv'. reflexivity.
+Qed.
+
+(* no delimiter / release character starts at a unit that the encoder left unescaped *)
+Lemma no_occ_at_plain_unit u r x v : units_ok (u :: r) -> escapable H u = false -> In x SP ->
+  hd_error u = hd_error x -> u ++ EU r = x ++ v -> False.
+Proof.
+  intros Hok Hesc Hx Hhd Heq. pose proof Hok as (Hne & Hsz & Hr).
+  destruct (head_in x Hx) as (x0 & xt & Ex & Hx0).
+  destruct u as [|u0 ut]; [congruence|]. rewrite Ex in Hhd. cbn in Hhd. inversion Hhd; subst u0.
+  pose proof (sp_first_rune x Hx) as Hfr. unfold first_rune_ok in Hfr.
+  destruct (decode_rune x) as [rx nx] eqn:Edx. cbn [fst] in Hfr.
+  assert (Hxne : x <> []) by (rewrite Ex; discriminate).
+  pose proof (decode_rune_size x Hxne) as Hnx. rewrite Edx in Hnx. cbn [snd] in Hnx.
+  pose proof (decode_prefix x rx nx Edx (or_intror Hfr)) as Hpre.
+  (* the unit and what follows it in the data start with the first rune of x *)
+  assert (Hw : exists w, (x0 :: ut) ++ concat r = firstn nx x ++ w).
+  { destruct (Nat.le_gt_cases nx (length (x0 :: ut))) as [Hge|Hlt].
+    - exists (skipn nx (x0 :: ut) ++ concat r).
+      assert (firstn nx x = firstn nx (x0 :: ut)) as ->.
+      { transitivity (firstn nx (x ++ v)); [rewrite firstn_app; replace (nx - length x) with 0 by lia;
+                                             simpl; rewrite app_nil_r; reflexivity|].
+        rewrite <- Heq, firstn_app. replace (nx - length (x0 :: ut)) with 0 by lia. simpl firstn at 2.
+        rewrite app_nil_r. reflexivity. }
+      rewrite app_assoc, firstn_skipn. reflexivity.
+    - (* the unit is shorter than that rune: the rest of the rune are continuation bytes, data bytes *)
+      assert (Hcs : forall y, In y (skipn (length (x0 :: ut)) (firstn nx x)) -> is_cont y).
+      { intros y Hy. rewrite Ex in Edx, Hy.
+        destruct (decode_multi_cont x0 xt rx nx Edx) as [_ Hc]; [simpl in Hlt; lia|].
+        destruct nx as [|nx']; [lia|]. cbn [firstn length skipn] in Hy.
+        apply in_skipn in Hy. apply in_firstn_nth in Hy as (k & Hk & Hn).
+        destruct (Hc k) as (c' & Hc1 & Hc2); [lia|]. congruence. }
+      assert (Hsplit : firstn nx x = (x0 :: ut) ++ skipn (length (x0 :: ut)) (firstn nx x)).
+      { rewrite <- (firstn_skipn (length (x0 :: ut)) (firstn nx x)) at 1. f_equal.
+        rewrite firstn_firstn. replace (Nat.min (length (x0 :: ut)) nx) with (length (x0 :: ut)) by lia.
+        transitivity (firstn (length (x0 :: ut)) (x ++ v)).
+        - rewrite firstn_app. replace (length (x0 :: ut) - length x) with 0 by lia. simpl firstn at 2.
+          rewrite app_nil_r. reflexivity.
+        - rewrite <- Heq, firstn_app, Nat.sub_diag, firstn_all. simpl. rewrite app_nil_r. reflexivity. }
+      assert (HEU : EU r = skipn (length (x0 :: ut)) (firstn nx x) ++ (skipn nx x ++ v)).
+      { apply (app_inv_head (x0 :: ut)). rewrite Heq, app_assoc, <- Hsplit, app_assoc, firstn_skipn. reflexivity. }
+      destruct (cont_prefix _ Hcs r _ Hr HEU) as (v' & Hv').
+      exists v'. rewrite Hv', app_assoc, <- Hsplit. reflexivity. }
+  destruct Hw as (w & Hw). rewrite Hw, Hpre in Hsz. cbn [snd] in Hsz.
+  assert (x0 :: ut = firstn nx x) as Hu.
+  { apply (app_eq_length_l (x0 :: ut) (concat r) (firstn nx x) w); [rewrite firstn_length; lia|exact Hw]. }
+  (* so the unit is a decodable rune with its first byte among the heads: it was escaped *)
+  assert (escapable H (x0 :: ut) = true) as Habs.
+  { unfold escapable. rewrite Hu at 1. rewrite <- (app_nil_r (firstn nx x)), Hpre. cbn [fst].
+    apply andb_true_intro. split; [apply negb_true_iff, N.eqb_neq; exact Hfr|apply is_head_In; exact Hx0]. }
+  congruence.
+Qed.
+
+(* a byte inside a unit (not its first) starts no delimiter *)
+Lemma no_occ_inside_unit u r t k x0 : units_ok (u :: r) -> 0 < k < length u ->
+  nth_error (u ++ t) k = Some x0 -> In x0 H -> False.
+Proof.
+  intros Hok Hk Hn Hx0. destruct u as [|u0 ut]; [simpl in Hk; lia|].
+  rewrite nth_error_app1 in Hn by lia. destruct k as [|k]; [lia|]. cbn [nth_error] in Hn.
+  apply nth_error_In in Hn. apply (head_not_cont x0 Hx0).
+  apply (unit_tail_cont (u0 :: ut) r u0 ut Hok eq_refl). exact Hn.
+Qed.
+
+(* every occurrence of a delimiter or of the release character in the encoded form is either an
+   occurrence right after an inserted release character, or an inserted release character *)
+Lemma occ_in_enc : esc <> [] -> forall us, units_ok us -> forall u x v, In x SP -> EU us = u ++ x ++ v ->
+  (exists us1 us2, us = us1 ++ us2 /\ u = EU us1 ++ esc) \/
+  (x = esc /\ exists us1 w us2, us = us1 ++ w :: us2 /\ escapable H w = true /\ u = EU us1).
 Proof.
   intros He. pose proof (esc_sp He) as Hes.
-  induction d as [|b d IH]; intros u x v Hx Heq.
+  induction us as [|w r IH]; intros Hok u x v Hx Heq.
   - exfalso. destruct (head_in x Hx) as (x0 & xt & -> & _). destruct u; discriminate.
-  - destruct (head_in x Hx) as (x0 & xt & Ex & Hx0).
-    rewrite E_cons in Heq. destruct (is_head H b) eqn:Eb.
-    + rewrite <- app_assoc in Heq. change ([b] ++ E d) with (b :: E d) in Heq.
-      destruct (Nat.lt_ge_cases (length u) (length esc)) as [Hlt|Hge].
-      * (* inside the inserted release character: it is that release character *)
-        destruct (no_overlap (esc ++ b :: E d) esc x [] (b :: E d) u v Hes Hx) as [Hu Hxe];
+  - destruct (head_in x Hx) as (x0 & xt & Ex & Hx0). pose proof Hok as (Hne & Hsz & Hr).
+    assert (Hnth : nth_error (u ++ x ++ v) (length u) = Some x0).
+    { rewrite nth_error_app2, Nat.sub_diag, Ex by lia. reflexivity. }
+    assert (Hlift : forall m, EU r = m ++ x ++ v -> forall pre, (forall us1, EU (w :: us1) = pre ++ EU us1) ->
+              u = pre ++ m ->
+              (exists us1 us2, w :: r = us1 ++ us2 /\ u = EU us1 ++ esc) \/
+              (x = esc /\ exists us1 w' us2, w :: r = us1 ++ w' :: us2 /\ escapable H w' = true /\ u = EU us1)).
+    { intros m Hm pre Hpre Hu.
+      destruct (IH Hr m x v Hx Hm) as [(us1 & us2 & -> & ->)|(Hxe & us1 & w' & us2 & -> & Hw' & ->)].
+      - left. exists (w :: us1), us2. split; [reflexivity|]. rewrite Hu, Hpre, app_assoc. reflexivity.
+      - right. split; [exact Hxe|]. exists (w :: us1), w', us2. split; [reflexivity|]. split; [exact Hw'|].
+        rewrite Hu, Hpre. reflexivity. }
+    rewrite EU_cons in Heq. destruct (escapable H w) eqn:Ew.
+    + destruct (Nat.lt_ge_cases (length u) (length esc)) as [Hlt|Hge].
+      * destruct (no_overlap (esc ++ w ++ EU r) esc x [] (w ++ EU r) u v Hes Hx) as [Hu Hxe];
           [reflexivity|exact Heq|simpl; lia|].
-        right. subst u. split; [auto|]. exists [], b, d. split; [reflexivity|].
-        split; [apply is_head_In; exact Eb|]. split; [reflexivity|].
-        rewrite <- Hxe in Heq. simpl in Heq. apply app_inv_head in Heq. auto.
+        right. subst u. split; [auto|]. exists [], w, r. auto.
       * destruct (Nat.eq_dec (length u) (length esc)) as [Heql|Hneq].
-        -- (* right after it: the occurrence is in the data *)
-           assert (esc = u /\ b :: E d = x ++ v) as [<- Hrest] by (apply app_eq_length_l; [lia|exact Heq]).
-           rewrite Ex in Hrest. simpl in Hrest. inversion Hrest as [[Hb Hd]]. subst x0.
-           destruct (plain_prefix He xt) with (d := d) (v := v) as (d2 & -> & ->).
-           { intros b' Hb'. apply (tail_not_head x b' Hx). rewrite Ex. exact Hb'. }
-           { exact Hd. }
-           left. exists [], d2. rewrite Ex. simpl. auto.
-        -- (* further right: induction *)
-           replace (esc ++ b :: E d) with ((esc ++ [b]) ++ E d) in Heq by (rewrite <- app_assoc; reflexivity).
-           apply app_split_ge in Heq; [|rewrite app_length; simpl; lia].
-           destruct Heq as (m & -> & Hd).
-           destruct (IH m x v Hx Hd) as [(d1 & d2 & -> & -> & ->)|(Hxe & d1 & b' & d2 & -> & Hb' & -> & ->)].
-           ++ left. exists (b :: d1), d2. rewrite E_cons, Eb, <- !app_assoc. auto.
-           ++ right. split; [exact Hxe|]. exists (b :: d1), b', d2. rewrite E_cons, Eb. auto.
-    + simpl in Heq. destruct u as [|u0 u].
-      * exfalso. rewrite Ex in Heq. simpl in Heq. inversion Heq; subst.
-        apply is_head_In in Hx0. congruence.
-      * simpl in Heq. inversion Heq as [[Hu0 Hd]]. subst u0.
-        destruct (IH u x v Hx Hd) as [(d1 & d2 & -> & -> & ->)|(Hxe & d1 & b' & d2 & -> & Hb' & -> & ->)].
-        -- left. exists (b :: d1), d2. rewrite E_cons, Eb. auto.
-        -- right. split; [exact Hxe|]. exists (b :: d1), b', d2. rewrite E_cons, Eb. auto.
+        -- assert (esc = u /\ w ++ EU r = x ++ v) as [<- _] by (apply app_eq_length_l; [lia|exact Heq]).
+           left. exists [], (w :: r). auto.
+        -- destruct (Nat.lt_ge_cases (length u) (length esc + length w)) as [Hlt2|Hge2].
+           ++ exfalso. rewrite <- Heq, nth_error_app2 in Hnth by lia.
+              apply (no_occ_inside_unit w r (EU r) (length u - length esc) x0 Hok); [lia|exact Hnth|exact Hx0].
+           ++ rewrite app_assoc in Heq. apply app_split_ge in Heq; [|rewrite app_length; lia].
+              destruct Heq as (m & Hu & Hm).
+              apply (Hlift m Hm (esc ++ w)); [|exact Hu].
+              intros us1. rewrite EU_cons, Ew, app_assoc. reflexivity.
+    + cbn [app] in Heq. destruct (Nat.eq_dec (length u) 0) as [Hz|Hnz].
+      * exfalso. destruct u; [|simpl in Hz; lia]. cbn [app] in Heq.
+        apply (no_occ_at_plain_unit w r x v Hok Ew Hx); [|exact Heq].
+        destruct w as [|w0 wt]; [congruence|]. rewrite Ex in Heq |- *. cbn in Heq |- *. inversion Heq. reflexivity.
+      * destruct (Nat.lt_ge_cases (length u) (length w)) as [Hlt2|Hge2].
+        -- exfalso. rewrite <- Heq in Hnth.
+           apply (no_occ_inside_unit w r (EU r) (length u) x0 Hok); [lia|exact Hnth|exact Hx0].
+        -- apply app_split_ge in Heq; [|lia]. destruct Heq as (m & Hu & Hm).
+           apply (Hlift m Hm w); [|exact Hu].
+           intros us1. rewrite EU_cons, Ew. reflexivity.
 Qed.
 
-Lemma E_even : esc <> [] -> forall n d, length d <= n -> Nat.odd (trailing esc (E d)) = false.
+Lemma units_nonempty_len us : units_ok us -> length us <= length (EU us).
 Proof.
-  intros He. induction n as [|n IH]; intros d Hn.
-  - destruct d; [|simpl in Hn; lia]. reflexivity.
-  - destruct (strip_suffix esc (E d)) as [u|] eqn:Es.
+  induction us as [|w r IH]; intro Hok; [simpl; lia|]. destruct Hok as (Hne & _ & Hr).
+  rewrite EU_cons, !app_length. specialize (IH Hr). destruct w; [congruence|simpl; lia].
+Qed.
+
+(* two prefixes of one unit list: the one with the shorter encoding is a proper prefix of the other *)
+Lemma prefix_shorter us a a2 b b2 : units_ok us -> us = a ++ a2 -> us = b ++ b2 ->
+  length (EU a) < length (EU b) -> exists l, l <> [] /\ b = a ++ l.
+Proof.
+  intros Hok Ha Hb Hlt. rewrite Ha in Hb. apply app_eq_app in Hb as [l [[-> ->]|[-> ->]]].
+  - exfalso. rewrite EU_app, app_length in Hlt. lia.
+  - exists l. split; [|reflexivity]. intros ->. rewrite app_nil_r in Hlt. lia.
+Qed.
+
+Lemma enc_even : esc <> [] -> forall us, units_ok us -> forall n us1 us2, length us1 <= n ->
+  us = us1 ++ us2 -> Nat.odd (trailing esc (EU us1)) = false.
+Proof.
+  intros He us Hok. induction n as [|n IH]; intros us1 us2 Hn Hus.
+  - destruct us1; [|simpl in Hn; lia]. reflexivity.
+  - destruct (strip_suffix esc (EU us1)) as [u|] eqn:Es.
     + apply strip_suffix_some in Es.
-      destruct (occ_in_E He d u esc [] (esc_sp He)) as [(d1 & d2 & Hd & Hu & Hv)|(_ & d1 & b & d2 & _ & _ & _ & Hv)];
-        [rewrite app_nil_r; exact Es| |discriminate].
-      symmetry in Hv. apply E_nil_inv in Hv. subst d2.
-      rewrite Es, Hu, !trailing_app by exact He.
-      change (Nat.odd (S (S (trailing esc (E d1))))) with (Nat.odd (trailing esc (E d1))).
-      apply IH. subst d. rewrite !app_length in Hn.
-      assert (0 < length esc) by (destruct esc; [congruence|simpl; lia]). lia.
+      assert (Heq : EU us = u ++ esc ++ EU us2) by (rewrite Hus, EU_app, Es, <- app_assoc; reflexivity).
+      assert (0 < length esc) by (destruct esc; [congruence|simpl; lia]).
+      destruct (occ_in_enc He us Hok u esc (EU us2) (esc_sp He) Heq)
+        as [(a & a2 & Ha & Hu)|(_ & a & w & a2 & Ha & Hw & Hu)].
+      * destruct (prefix_shorter us a a2 us1 us2 Hok Ha Hus) as (l & Hl & Hus1).
+        { rewrite Es, Hu, !app_length. lia. }
+        rewrite Es, Hu, !trailing_app by exact He.
+        change (Nat.odd (S (S (trailing esc (EU a))))) with (Nat.odd (trailing esc (EU a))).
+        apply (IH a a2); [|exact Ha]. rewrite Hus1, app_length in Hn. destruct l; [congruence|simpl in Hn; lia].
+      * exfalso.
+        destruct (prefix_shorter us a (w :: a2) us1 us2 Hok Ha Hus) as (l & Hl & Hus1).
+        { rewrite Es, Hu, !app_length. lia. }
+        (* us1 = a ++ w' :: l' with w' = w escapable: its encoding is longer than esc *)
+        destruct l as [|w' l']; [congruence|].
+        assert (w' = w) as ->.
+        { rewrite Hus1, <- app_assoc in Hus. rewrite Ha in Hus. apply app_inv_head in Hus. inversion Hus. reflexivity. }
+        pose proof Hok as Hok2. rewrite Ha in Hok2. apply units_ok_app_r in Hok2 as (Hwne & _).
+        rewrite Hus1, EU_app, EU_cons, Hw, Hu in Es.
+        apply (f_equal (@length byte)) in Es. rewrite !app_length in Es.
+        destruct w; [congruence|simpl in Es; lia].
     + rewrite trailing_none by (apply strip_suffix_none; exact Es). reflexivity.
 Qed.
 
@@ -404,31 +553,38 @@ Qed.
    not contain the first byte of any delimiter *)
 Definition data_ok (d : bytes) : Prop := esc <> [] \/ forall b, In b d -> ~ In b H.
 
-Lemma E_no_esc d : esc = [] -> E d = d.
+Lemma EU_no_esc us : esc = [] -> EU us = concat us.
 Proof.
-  intro He. induction d as [|b d IH]; [reflexivity|]. rewrite E_cons, IH, He.
-  destruct (is_head H b); reflexivity.
+  intro He. induction us as [|w r IH]; [reflexivity|]. rewrite EU_cons, IH, He.
+  destruct (escapable H w); reflexivity.
+Qed.
+
+Lemma E_no_esc d : esc = [] -> E d = d.
+Proof. intro He. rewrite E_units, (EU_no_esc _ He). apply explode_ok. Qed.
+
+Lemma E_nil_inv d : E d = [] -> d = [].
+Proof.
+  rewrite E_units. destruct (explode_ok d) as [Hok Hcat]. intro Hn.
+  destruct (explode d) as [|w r]; [simpl in Hcat; congruence|]. exfalso.
+  rewrite EU_cons in Hn. destruct Hok as (Hne & _). destruct w; [congruence|].
+  destruct (escapable H (b :: w)); [|discriminate].
+  apply app_eq_nil in Hn as [_ Hn]. discriminate.
 Qed.
 
 Lemma sealed_E d : data_ok d -> sealed (fun x => In x (delims c)) (E d).
 Proof.
-  intros [He|Hd].
-  - split; [|intros _; apply (E_even He (length d)); lia].
+  intros Hd. destruct (explode_ok d) as [Hok Hcat]. rewrite E_units.
+  destruct (list_eq_dec Byte.byte_eq_dec esc []) as [He|He].
+  - destruct Hd as [Hd|Hd]; [congruence|].
+    split; [|congruence]. intros x u v Hx Heq. exfalso. rewrite (EU_no_esc _ He), Hcat in Heq.
+    destruct (head_in x (delim_sp x Hx)) as (x0 & xt & -> & Hx0).
+    apply (Hd x0); [|exact Hx0]. rewrite Heq. apply in_or_app. right. left. reflexivity.
+  - split; [|intros _; apply (enc_even He _ Hok (length (explode d)) (explode d) []); [lia|rewrite app_nil_r; reflexivity]].
     intros x u v Hx Heq. split; [exact He|].
-    destruct (occ_in_E He d u x v (delim_sp x Hx) Heq) as [(d1 & d2 & _ & -> & _)|(Hxe & _)].
+    destruct (occ_in_enc He _ Hok u x v (delim_sp x Hx) Heq) as [(us1 & us2 & Hus & ->)|(Hxe & _)].
     + rewrite trailing_app by exact He. rewrite Nat.odd_succ, <- Nat.negb_odd.
-      rewrite (E_even He (length d1)) by lia. reflexivity.
+      rewrite (enc_even He _ Hok (length us1) us1 us2) by (try exact Hus; lia). reflexivity.
     + exfalso. apply (esc_not_delim He). rewrite <- Hxe. exact Hx.
-  - destruct (list_eq_dec Byte.byte_eq_dec esc []) as [He|He].
-    + split; [|congruence]. intros x u v Hx Heq. exfalso. rewrite (E_no_esc d He) in Heq.
-      destruct (head_in x (delim_sp x Hx)) as (x0 & xt & -> & Hx0).
-      apply (Hd x0); [|exact Hx0]. rewrite Heq. apply in_or_app. right. left. reflexivity.
-    + split; [|intros _; apply (E_even He (length d)); lia].
-      intros x u v Hx Heq. split; [exact He|].
-      destruct (occ_in_E He d u x v (delim_sp x Hx) Heq) as [(d1 & d2 & _ & -> & _)|(Hxe & _)].
-      * rewrite trailing_app by exact He. rewrite Nat.odd_succ, <- Nat.negb_odd.
-        rewrite (E_even He (length d1)) by lia. reflexivity.
-      * exfalso. apply (esc_not_delim He). rewrite <- Hxe. exact Hx.
 Qed.
 
 (* ---- the four levels -------------------------------------------------------------------------------- *)
@@ -747,7 +903,7 @@ Lemma only_crlf_all t : forallb is_crlf t = true -> only_crlf t = true.
 Proof. apply only_crlf_fuel_all. Qed.
 
 (* ---- whole inputs ------------------------------------------------------------------------------------------- *)
-Definition segx_ok (x : lsegx) : Prop :=
+Definition segx_ok_enc (x : lsegx) : Prop :=
   let s := ls_seg x in
   s <> [] /\ Forall elem_ok s /\ seg_name s <> [] /\
   (ls_cr x = true -> seg = [LF]) /\
@@ -775,7 +931,7 @@ Proof.
   cbn [flat_map]. rewrite flat_map_app, IH, enc_segx_pieces. reflexivity.
 Qed.
 
-Lemma pieces_sealed x : segx_ok x -> Forall (sealed Ps) (pieces x).
+Lemma pieces_sealed x : segx_ok_enc x -> Forall (sealed Ps) (pieces x).
 Proof.
   intros (Hne & Hel & _ & Hcr & _ & _ & Hbl & _). unfold pieces. apply Forall_app. split.
   - apply Forall_forall. intros p Hp. apply in_map_iff in Hp as (b & <- & Hin).
@@ -786,9 +942,9 @@ Qed.
 
 Lemma in_E b d : In b d -> In b (E d).
 Proof.
-  induction d as [|a d IH]; intro Hin; [destruct Hin|]. rewrite E_cons. apply in_or_app.
-  destruct Hin as [->|Hin]; [left|right; auto].
-  destruct (is_head H b); [apply in_or_app; right|]; left; reflexivity.
+  intro Hin. rewrite E_units. destruct (explode_ok d) as [_ Hcat]. rewrite <- Hcat in Hin.
+  apply in_concat in Hin as (w & Hw & Hb). unfold EU, enc_units. apply in_flat_map. exists w.
+  split; [exact Hw|]. apply in_or_app. right. exact Hb.
 Qed.
 
 Lemma in_join_first b z x l : In b x -> In b (join z (x :: l)).
@@ -811,7 +967,7 @@ Proof.
   - intros _. exists a. split; [left; reflexivity|exact Ea].
 Qed.
 
-Lemma read_tokens_pieces x rest : segx_ok x ->
+Lemma read_tokens_pieces x rest : segx_ok_enc x ->
   read_tokens c (map (fun p => p ++ seg) (pieces x) ++ rest) =
   bind (read_tokens c rest) (fun l => Ok (exp_seg c (ls_seg x) :: l)).
 Proof.
@@ -834,7 +990,7 @@ Proof.
       apply in_or_app. right. exact Hin.
 Qed.
 
-Lemma read_tokens_all segs : Forall segx_ok segs ->
+Lemma read_tokens_all segs : Forall segx_ok_enc segs ->
   read_tokens c (map (fun p => p ++ seg) (flat_map pieces segs)) =
   Ok (map (fun x => exp_seg c (ls_seg x)) segs).
 Proof.
@@ -846,13 +1002,13 @@ Proof.
   reflexivity.
 Qed.
 
-Lemma Forall_flat_map_sealed segs : Forall segx_ok segs -> Forall (sealed Ps) (flat_map pieces segs).
+Lemma Forall_flat_map_sealed segs : Forall segx_ok_enc segs -> Forall (sealed Ps) (flat_map pieces segs).
 Proof.
   induction segs as [|x segs IH]; intro Hall; [constructor|].
   inversion Hall; subst. cbn [flat_map]. apply Forall_app. split; [apply pieces_sealed; assumption|auto].
 Qed.
 
-Lemma roundtrip segs inp : Forall segx_ok segs ->
+Lemma roundtrip_enc segs inp : Forall segx_ok_enc segs ->
   (if c_ignore_crlf c then strip_crlf inp else inp) = edi_encode c segs ->
   nv_read_all c inp = Ok (map (fun x => exp_seg c (ls_seg x)) segs).
 Proof.
@@ -865,20 +1021,55 @@ Proof.
 Qed.
 
 (* ---- rawSegToNode ------------------------------------------------------------------------------------------- *)
-Lemma cfg_ascii : Forall ascii_byte H.
-Proof. destruct Hcfg as (_ & _ & _ & Ha & _). exact Ha. Qed.
-
-Lemma cfg_rel_ok : rel_ok H esc.
+Lemma escapable_decode w r : units_ok (w :: r) -> escapable H w = true ->
+  exists rw, rw <> RuneError /\ forall t, decode_rune (w ++ t) = (rw, length w).
 Proof.
-  unfold rel_ok. destruct esc as [|e0 er] eqn:Ee; [exact I|].
-  assert (esc <> []) as He by (rewrite Ee; discriminate).
-  pose proof (esc_sp He) as Hes. rewrite Ee in Hes. split.
-  - destruct (head_in _ Hes) as (x0 & xt & Hx & Hin). inversion Hx; subst. apply is_head_In. exact Hin.
-  - intros b Hb. apply not_head. apply (tail_not_head (e0 :: er) b Hes). exact Hb.
+  intros (Hne & Hsz & _) Hw. destruct (escapable_true w Hw) as (b & ut & Eb & _ & Hd).
+  destruct (decode_rune w) as [rw nw] eqn:Edw. cbn [fst] in Hd.
+  pose proof (decode_prefix w rw nw Edw (or_intror Hd)) as Hpre.
+  pose proof (decode_rune_size w Hne) as Hnw. rewrite Edw in Hnw. cbn [snd] in Hnw.
+  assert (nw = length w) as Hl.
+  { rewrite <- (firstn_skipn nw w), <- app_assoc, Hpre in Hsz. cbn [snd] in Hsz.
+    rewrite firstn_skipn in Hsz. exact Hsz. }
+  exists rw. split; [exact Hd|]. intro t. specialize (Hpre t). rewrite Hl, firstn_all in Hpre. exact Hpre.
+Qed.
+
+Lemma unescape_EU : esc <> [] -> forall us, units_ok us -> forall k, length (EU us) < k ->
+  unescape_loop k (EU us) esc = Ok (concat us).
+Proof.
+  intros He. pose proof (esc_sp He) as Hes. destruct (head_in esc Hes) as (e0 & er & Ee & He0).
+  induction us as [|w r IH]; intros Hok k Hk.
+  - destruct k; [simpl in Hk; lia|]. cbn [unescape_loop EU enc_units flat_map].
+    destruct esc; [congruence|reflexivity].
+  - pose proof Hok as (Hne & Hsz & Hr). rewrite EU_cons in *.
+    assert (0 < length w) as Hwl by (destruct w; [congruence|simpl; lia]).
+    destruct (escapable H w) eqn:Ew.
+    + destruct (escapable_decode w r Hok Ew) as (rw & Hrw & Hdec).
+      rewrite !app_length in Hk.
+      destruct k as [|k]; [lia|]. rewrite (unescape_loop_esc_unit esc w (EU r) k rw (Hdec _) Hrw).
+      rewrite IH by (try exact Hr; lia). reflexivity.
+    + cbn [app] in *. rewrite app_length in Hk. destruct k as [|k]; [lia|]. rewrite unescape_loop_plain.
+      * rewrite IH by (try exact Hr; lia). reflexivity.
+      * exact He.
+      * intros p1 p2 Hp Hp2. destruct (has_prefix (p2 ++ EU r) esc) eqn:Ehp; [|reflexivity]. exfalso.
+        apply has_prefix_spec in Ehp as [v Hv]. destruct p1 as [|q p1].
+        -- cbn [app] in Hp. subst p2.
+           apply (no_occ_at_plain_unit w r esc v Hok Ew Hes); [|exact Hv].
+           rewrite Ee in Hv |- *. destruct w as [|w0 wt]; [congruence|]. cbn in Hv |- *. inversion Hv. reflexivity.
+        -- (* p2 starts inside the unit: a continuation byte, the release character does not start with one *)
+           destruct p2 as [|y p2]; [congruence|]. rewrite Ee in Hv. cbn [app] in Hv. injection Hv as Hy _. subst y.
+           apply (head_not_cont e0 He0). subst w.
+           apply (unit_tail_cont (q :: p1 ++ e0 :: p2) r q (p1 ++ e0 :: p2) Hok eq_refl).
+           apply in_or_app. right. left. reflexivity.
 Qed.
 
 Lemma unescape_E d : unescape (E d) esc = Ok d.
-Proof. apply unescape_escape; [apply cfg_ascii|apply cfg_rel_ok]. Qed.
+Proof.
+  destruct (explode_ok d) as [Hok Hcat]. unfold unescape.
+  destruct (is_empty esc) eqn:Ee.
+  - apply is_empty_true in Ee. rewrite (E_no_esc d Ee). reflexivity.
+  - apply is_empty_false in Ee. rewrite E_units, (unescape_EU Ee _ Hok) by lia. rewrite Hcat. reflexivity.
+Qed.
 
 Section Decl.
 Variable k : nat.
@@ -991,12 +1182,163 @@ Proof.
   rewrite IH by (intros y Hy; apply Hn; right; exact Hy). reflexivity.
 Qed.
 
+Lemma full_roundtrip_enc segs inp sname decls : Forall segx_ok_enc segs ->
+  (forall x, In x segs -> E (seg_name (ls_seg x)) = sname) ->
+  (if c_ignore_crlf c then strip_crlf inp else inp) = edi_encode c segs ->
+  full_read_all c sname decls inp = Ok (exp_full decls (map ls_seg segs)).
+Proof.
+  intros Hall Hn Hin. unfold full_read_all. rewrite (roundtrip_enc segs inp Hall Hin). cbn [bind].
+  apply full_results_enc. exact Hn.
+Qed.
+
+(* ---- "no CR before an LF delimiter", from the logical values ----------------------------------------- *)
+Definition last_rep (s : lseg) : lrep := last (last s []) [].
+Definition last_val (s : lseg) : bytes := last (last_rep s) [].
+(* the delimiter that stands right before the last value of the segment *)
+Definition pre_delim (s : lseg) : bytes :=
+  if 2 <=? length (last_rep s) then comp
+  else if 2 <=? length (last s []) then rep
+  else if 2 <=? length s then elem else [].
+(* the encoded segment does not end with CR: its last value does not, and if that value is empty
+   the delimiter before it does not *)
+Definition no_cr_end (s : lseg) : Prop :=
+  ~ ends_with_cr (last_val s) /\ (last_val s = [] -> ~ ends_with_cr (pre_delim s)).
+
+Lemma has_suffix_cr t : has_suffix t [CR] = true <-> ends_with_cr t.
+Proof.
+  unfold has_suffix, ends_with_cr. cbn [rev app]. split.
+  - intro Hp. apply has_prefix_spec in Hp as [r Hr]. exists (rev r).
+    rewrite <- (rev_involutive t), Hr. cbn [app rev]. reflexivity.
+  - intros [u ->]. rewrite rev_unit. cbn [has_prefix]. rewrite byte_eqb_refl. destruct (rev u); reflexivity.
+Qed.
+
+Lemma ends_cr_app_r a b : b <> [] -> ends_with_cr (a ++ b) -> ends_with_cr b.
+Proof.
+  intros Hb [u Hu]. destruct (@exists_last _ b Hb) as (b' & z & ->).
+  rewrite app_assoc in Hu. apply app_inj_tail in Hu as [_ ->]. exists b'. reflexivity.
+Qed.
+
+Lemma E_last d : ends_with_cr (E d) -> ends_with_cr d.
+Proof.
+  intros [u Hu]. rewrite E_units in Hu. destruct (explode_ok d) as [Hok Hcat].
+  destruct (explode d) as [|w0 r0] eqn:Ex; [destruct u; discriminate|].
+  assert (Hne : w0 :: r0 <> []) by discriminate.
+  destruct (@exists_last _ (w0 :: r0) Hne) as (us' & w & Hus). rewrite Hus in *.
+  apply units_ok_app_r in Hok as (Hwne & _).
+  destruct (@exists_last _ w Hwne) as (w' & z & ->).
+  rewrite EU_app, EU_cons in Hu. cbn [EU enc_units flat_map] in Hu. rewrite app_nil_r, !app_assoc in Hu.
+  apply app_inj_tail in Hu as [_ ->]. exists (concat us' ++ w'). rewrite <- Hcat, concat_app. cbn [concat].
+  rewrite app_nil_r, app_assoc. reflexivity.
+Qed.
+
+Lemma join_nil_inv z ps : join z ps = [] -> ps <> [] -> (z = [] -> length ps = 1) -> ps = [[]].
+Proof.
+  intros Hj Hne Hz. destruct ps as [|p [|q ps]]; [congruence|cbn [join] in Hj; subst; reflexivity|].
+  exfalso. change (join z (p :: q :: ps)) with (p ++ z ++ join z (q :: ps)) in Hj.
+  apply app_eq_nil in Hj as [_ Hj]. apply app_eq_nil in Hj as [Hzn _]. specialize (Hz Hzn). simpl in Hz. lia.
+Qed.
+
+Lemma join_ends z ps : ps <> [] -> (z = [] -> length ps = 1) -> ends_with_cr (join z ps) ->
+  ends_with_cr (last ps []) \/ (last ps [] = [] /\ 2 <= length ps /\ ends_with_cr z).
+Proof.
+  induction ps as [|p ps IH]; intros Hne Hz He; [congruence|].
+  destruct ps as [|q ps]; [left; exact He|].
+  change (join z (p :: q :: ps)) with (p ++ z ++ join z (q :: ps)) in He.
+  change (last (p :: q :: ps) []) with (last (q :: ps) []).
+  assert (Hzne : z <> []) by (intro Hzn; specialize (Hz Hzn); simpl in Hz; lia).
+  destruct (list_eq_dec Byte.byte_eq_dec (join z (q :: ps)) []) as [Hj|Hj].
+  - right. apply join_nil_inv in Hj; [|discriminate|congruence]. inversion Hj; subst.
+    split; [reflexivity|]. split; [simpl; lia|].
+    rewrite app_nil_r in He. apply (ends_cr_app_r p z Hzne He).
+  - rewrite app_assoc in He. apply ends_cr_app_r in He; [|exact Hj].
+    destruct (IH ltac:(discriminate) ltac:(congruence) He) as [Hl|(Hl & Hlen & Hzc)]; [left; exact Hl|].
+    right. split; [exact Hl|]. split; [simpl in *; lia|exact Hzc].
+Qed.
+
+Lemma last_map {A B} (f : A -> B) l a b : l <> [] -> last (map f l) b = f (last l a).
+Proof.
+  induction l as [|x l IH]; intro Hne; [congruence|]. destruct l as [|y l]; [reflexivity|].
+  change (last (map f (x :: y :: l)) b) with (last (map f (y :: l)) b).
+  change (last (x :: y :: l) a) with (last (y :: l) a). apply IH. discriminate.
+Qed.
+
+Lemma last_in {A} (l : list A) a : l <> [] -> In (last l a) l.
+Proof.
+  induction l as [|x l IH]; intro Hne; [congruence|]. destruct l as [|y l]; [left; reflexivity|].
+  right. apply IH. discriminate.
+Qed.
+
+Lemma enc_no_cr s : s <> [] -> Forall elem_ok s -> no_cr_end s -> has_suffix (enc_seg c s) [CR] = false.
+Proof.
+  intros Hne Hel [Hv Hpre]. destruct (has_suffix (enc_seg c s) [CR]) eqn:Hs; [|reflexivity]. exfalso.
+  apply has_suffix_cr in Hs. unfold enc_seg in Hs. fold elem in Hs.
+  pose proof (last_in s [] Hne) as Hein. rewrite Forall_forall in Hel.
+  destruct (Hel _ Hein) as (Hene & Heone & Hrs). rewrite Forall_forall in Hrs.
+  pose proof (last_in (last s []) [] Hene) as Hrin. fold (last_rep s) in Hrin.
+  destruct (Hrs _ Hrin) as (Hrne & Hrone & _).
+  assert (Helem_ne : elem <> []) by (destruct Hcfg as (_ & He & _); exact He).
+  (* an empty encoded repetition / element has exactly one (empty) member *)
+  assert (Hrep_nil : enc_rep c (last_rep s) = [] -> length (last_rep s) = 1 /\ last_val s = []).
+  { unfold enc_rep. fold comp. change (escape (heads (specials c)) (optb (c_rel c))) with E. intro Hj.
+    apply join_nil_inv in Hj; [|apply map_nonempty; exact Hrne|rewrite map_length; exact Hrone].
+    unfold last_val. destruct (last_rep s) as [|v [|v' r]]; try discriminate. cbn in Hj |- *.
+    injection Hj as Hv0. apply E_nil_inv in Hv0. auto. }
+  assert (Helem_nil : enc_elem c (last s []) = [] ->
+            length (last s []) = 1 /\ length (last_rep s) = 1 /\ last_val s = []).
+  { unfold enc_elem. fold rep. intro Hj.
+    apply join_nil_inv in Hj; [|apply map_nonempty; exact Hene|rewrite map_length; exact Heone].
+    unfold last_rep in *. destruct (last s []) as [|r0 [|r1 e]]; try discriminate. cbn in Hj, Hrep_nil |- *.
+    injection Hj as Hr0. destruct (Hrep_nil Hr0). auto. }
+  destruct (join_ends elem (map (enc_elem c) s)) as [Hl|(Hl & Hlen & Hz)];
+    [apply map_nonempty; exact Hne|congruence|exact Hs| |].
+  - rewrite (last_map _ s []) in Hl by exact Hne. unfold enc_elem in Hl. fold rep in Hl.
+    destruct (join_ends rep (map (enc_rep c) (last s []))) as [Hl2|(Hl2 & Hlen2 & Hz2)];
+      [apply map_nonempty; exact Hene|rewrite map_length; exact Heone|exact Hl| |].
+    + rewrite (last_map _ (last s []) []) in Hl2 by exact Hene. fold (last_rep s) in Hl2.
+      unfold enc_rep in Hl2. fold comp in Hl2. change (escape (heads (specials c)) (optb (c_rel c))) with E in Hl2.
+      destruct (join_ends comp (map E (last_rep s))) as [Hl3|(Hl3 & Hlen3 & Hz3)];
+        [apply map_nonempty; exact Hrne|rewrite map_length; exact Hrone|exact Hl2| |].
+      * rewrite (last_map _ (last_rep s) []) in Hl3 by exact Hrne. apply E_last in Hl3. apply Hv. exact Hl3.
+      * rewrite (last_map _ (last_rep s) []) in Hl3 by exact Hrne. apply E_nil_inv in Hl3.
+        apply (Hpre Hl3). unfold pre_delim. rewrite map_length in Hlen3.
+        assert (2 <=? length (last_rep s) = true) as -> by (apply Nat.leb_le; exact Hlen3). exact Hz3.
+    + rewrite (last_map _ (last s []) []) in Hl2 by exact Hene. fold (last_rep s) in Hl2.
+      destruct (Hrep_nil Hl2) as [Hone Hlv]. apply (Hpre Hlv). unfold pre_delim. rewrite map_length in Hlen2.
+      rewrite Hone. change (2 <=? 1) with false. cbn iota. assert (2 <=? length (last s []) = true) as -> by (apply Nat.leb_le; exact Hlen2).
+      exact Hz2.
+  - rewrite (last_map _ s []) in Hl by exact Hne. destruct (Helem_nil Hl) as (H1 & H2 & Hlv).
+    apply (Hpre Hlv). unfold pre_delim. rewrite map_length in Hlen. rewrite H1, H2. change (2 <=? 1) with false. cbn iota.
+    assert (2 <=? length s = true) as -> by (apply Nat.leb_le; exact Hlen). exact Hz.
+Qed.
+
+(* the conditions on a logical segment, all on the logical values *)
+Definition segx_ok (x : lsegx) : Prop :=
+  let s := ls_seg x in
+  s <> [] /\ Forall elem_ok s /\ seg_name s <> [] /\
+  (ls_cr x = true -> seg = [LF]) /\
+  (seg = [LF] -> no_cr_end s) /\
+  (ls_blanks x <> [] -> forallb is_crlf seg = true) /\
+  (In true (ls_blanks x) -> seg = [LF]) /\
+  (forallb is_crlf seg = true -> exists b, In b (seg_name s) /\ is_crlf b = false).
+
+Lemma segx_ok_enc_of x : segx_ok x -> segx_ok_enc x.
+Proof.
+  intros (H1 & H2 & H3 & H4 & H5 & H6 & H7 & H8). repeat split; try assumption.
+  intro Hs. apply enc_no_cr; auto.
+Qed.
+
+Lemma roundtrip segs inp : Forall segx_ok segs ->
+  (if c_ignore_crlf c then strip_crlf inp else inp) = edi_encode c segs ->
+  nv_read_all c inp = Ok (map (fun x => exp_seg c (ls_seg x)) segs).
+Proof.
+  intros Hall. apply roundtrip_enc. eapply Forall_impl; [|exact Hall]. intros x. apply segx_ok_enc_of.
+Qed.
+
 Lemma full_roundtrip segs inp sname decls : Forall segx_ok segs ->
   (forall x, In x segs -> E (seg_name (ls_seg x)) = sname) ->
   (if c_ignore_crlf c then strip_crlf inp else inp) = edi_encode c segs ->
   full_read_all c sname decls inp = Ok (exp_full decls (map ls_seg segs)).
 Proof.
-  intros Hall Hn Hin. unfold full_read_all. rewrite (roundtrip segs inp Hall Hin). cbn [bind].
-  apply full_results_enc. exact Hn.
+  intros Hall. apply full_roundtrip_enc. eapply Forall_impl; [|exact Hall]. intros x. apply segx_ok_enc_of.
 Qed.
 End RT.
